@@ -99,6 +99,7 @@ B.extra["refused"] = 0
 B.extra["skipped"] = {}
 B.extra["ops_applied"] = {}
 B.extra["levels_edited"] = {}
+B.extra["geometry_changes"] = {}
 B.extra["shapes_covered"] = []
 B.extra["symmetry_factors_seen"] = []
 B.extra["objects_accounted"] = {"component": 0, "block": 0, "assembly": 0, "core": 0}
@@ -108,8 +109,14 @@ def skip(why):
     B.extra["skipped"][why] = B.extra["skipped"].get(why, 0) + 1
 
 
+CIRC = [""]  # circumstance of the running sequence: ".after-child-resize" / ".after-child-removed" / ".after-child-added"
+PREFER = []  # nuclides held by only SOME children of the object under edit (preferred targets after a geometry change)
+
+
 def V(vid, what, inp):
     """One report per id (the first = smallest input); totals in violation_counts."""
+    if CIRC[0] and not vid.endswith(CIRC[0]):
+        vid += CIRC[0]
     counts[vid] = counts.get(vid, 0) + 1
     if counts[vid] == 1 or B.replay is not None:
         B.violation(vid, what, inp)
@@ -272,7 +279,7 @@ def ambiguous(names, nucs):
 
 
 # ------------------------------------------------------------------------------------------------ (1) accounting
-def accounting(src, o, rng, nsample=4):
+def accounting(src, o, rng, nsample=4, light=False):
     lev = level_of(o)
     info = describe(src, o)
     B.extra["objects_accounted"][lev] += 1
@@ -402,6 +409,8 @@ def accounting(src, o, rng, nsample=4):
                 e = sum(mass[n] for n in els[sym]) + mass[o1]
                 g = o.getMass([sym, o1])
                 check(close(g, e, ACC), "mass.list." + lev + ambiguous([o1], nucs), "mass of [element, nuclide] is not the sum", dict(info, selection=[sym, o1], got=g, expected=e))
+    if light:  # big core after an edit: density() / getMassFracs() cost seconds there; every other clause was evaluated
+        return
     # ---- density, mass fractions
     e = sum(mean[n] * W(n) for n in nucs) / C
     zero = ".all-zero" if e == 0.0 else ""  # circumstance: every nuclide of the object has been set to zero
@@ -469,6 +478,22 @@ OPS_ALL = ["setNumberDensity", "setNumberDensity", "removeNuclide", "addNuclide"
            "addMass", "removeMass", "setMass", "addMasses", "setMasses", "setMassFracs", "setMassFracs"]
 
 
+def choose(rng, cands):
+    pref = [n for n in cands if n in PREFER]
+    if pref and rng.random() < 0.8:
+        return rng.choice(pref)
+    return rng.choice(cands)
+
+
+def sample_pref(rng, cands, k):
+    pick = rng.sample(cands, k)
+    if PREFER:
+        pref = [n for n in cands if n in PREFER and n not in pick]
+        if pref:
+            pick[0] = rng.choice(pref)
+    return pick
+
+
 def nd_of(o):
     return {k: float(v) for k, v in o.getNumberDensities().items()}
 
@@ -507,7 +532,7 @@ def apply_op(src, o, lev, cut, rng, info, kind):
 
     try:
         if kind in ("setNumberDensity", "removeNuclide"):
-            n = rng.choice(present)
+            n = choose(rng, present)
             v = 0.0 if kind == "removeNuclide" else val_for(n)
             ctx.update(nuclide=n, value=v)
             o.setNumberDensity(n, v)
@@ -557,7 +582,7 @@ def apply_op(src, o, lev, cut, rng, info, kind):
                 if bad:
                     fail("others", "adding a nuclide changed another nuclide's density", bad[:4])
         elif kind == "updateNumberDensities":
-            pick = rng.sample(present, min(len(present), rng.randint(1, 3)))
+            pick = sample_pref(rng, present, min(len(present), rng.randint(1, 3)))
             req = {n: val_for(n) for n in pick}
             if absent and rng.random() < 0.3:
                 req[rng.choice(absent)] = 10 ** rng.uniform(-7, -2)
@@ -621,7 +646,7 @@ def apply_op(src, o, lev, cut, rng, info, kind):
                     fail("detailed", "changeNDensByFactor(f) did not scale the object's own %s by f" % name, [name, arr.tolist(), None if now is None else np.asarray(now).tolist()])
                 o.p[name] = None
         elif kind in ("addMass", "removeMass", "setMass"):
-            n = rng.choice(pos if (pos and kind != "setMass") else present)
+            n = choose(rng, pos if (pos and kind != "setMass") else present)
             m0 = o.getMass(n)
             if kind == "addMass":
                 m = m0 * rng.choice([0.01, 0.5, 1.0, 3.0]) if m0 > 0 and rng.random() < 0.6 else 10 ** rng.uniform(-3, 3)
@@ -648,7 +673,7 @@ def apply_op(src, o, lev, cut, rng, info, kind):
             if bad:
                 fail("others", "%s changed another nuclide's density" % kind, bad[:4])
         elif kind == "addMasses":
-            pick = rng.sample(present, min(len(present), rng.randint(1, 3)))
+            pick = sample_pref(rng, present, min(len(present), rng.randint(1, 3)))
             req = {}
             m0 = {}
             for n in pick:
@@ -667,7 +692,7 @@ def apply_op(src, o, lev, cut, rng, info, kind):
             if bad:
                 fail("others", "addMasses changed an unlisted nuclide", bad[:4])
         elif kind == "setMasses":
-            pick = rng.sample(present, min(len(present), rng.randint(1, 4)))
+            pick = sample_pref(rng, present, min(len(present), rng.randint(1, 4)))
             req = {n: 10 ** rng.uniform(-3, 3) for n in pick}
             ctx.update(request=req)
             o.setMasses(dict(req))
@@ -691,7 +716,7 @@ def apply_op(src, o, lev, cut, rng, info, kind):
                 skip("setMassFracs on an object without mass / with a single nuclide")
                 return True
             k = rng.randint(1, min(2, len(pos) - 1))
-            pick = rng.sample(present, k)
+            pick = sample_pref(rng, present, k)
             rest = [n for n in pos if n not in pick]
             if not rest:
                 skip("setMassFracs: nothing left to keep proportions / density")
@@ -728,36 +753,180 @@ def apply_op(src, o, lev, cut, rng, info, kind):
     return True
 
 
-def edit_case(src, root, path, seed, length, ops=None):
-    """One seeded edit sequence on the object at `path` below root, from the loaded state; state restored afterwards."""
+GEO_KINDS = ["resize", "resize", "resize-conserve", "remove-block", "add-block", "insert-block"]
+
+
+def partial_nuclides(o):
+    """nuclides held by at least one but not all children of o"""
+    kids = list(o)
+    held = [set(ch.getNuclides()) for ch in kids]
+    allnucs = set().union(*held) if held else set()
+    return sorted(n for n in allnucs if 0 < sum(1 for h in held if n in h) < len(kids))
+
+
+class GeoState:
+    """What a geometry change below an assembly / core may touch (block heights, block lists, assembly list, densities); restore is
+    plumbing of this script (not under test) and puts the loaded state back."""
+
+    def __init__(self, o):
+        self.o = o
+        self.lev = level_of(o)
+        self.assems = [o] if self.lev == "assembly" else list(o)
+        self.kids = [(a, list(a)) for a in self.assems]
+        self.heights = [(b, b.getHeight()) for a in self.assems for b in a]
+        self.locs = [(a, a.spatialLocator) for a in self.assems] if self.lev == "core" else []
+        self.dens = State(o)
+        self.touched = False
+
+    def restore(self):
+        if self.touched:
+            if self.lev == "core":
+                core = self.o
+                for a, loc in self.locs:
+                    if a.parent is not core:
+                        core.add(a, loc)
+                order = {id(a): i for i, a in enumerate(self.assems)}
+                if [id(a) for a in core] != [id(a) for a in self.assems]:
+                    core._children.sort(key=lambda x: order.get(id(x), 10 ** 9))
+            for a, kids in self.kids:
+                if [id(b) for b in a] != [id(b) for b in kids]:
+                    keep = {id(b) for b in kids}
+                    for b in list(a):
+                        if id(b) not in keep:
+                            a.remove(b)
+                    for i, b in enumerate(kids):
+                        if b.parent is not a:
+                            a.insert(i, b)
+                    a.reestablishBlockOrder()
+                    a.calculateZCoords()
+            for b, h in self.heights:
+                if b.getHeight() != h:
+                    b.setHeight(h)
+        self.dens.restore()
+        if self.touched:
+            for b, _h in self.heights:
+                b.clearCache()
+            EDGE_CACHE.clear()
+
+
+def do_geometry(src, o, lev, rng, info, gst, kind=None):
+    """Change the geometry of ONE child (assembly level: a block; core level: a block of one assembly, or one whole assembly) through
+    the public API; sets the circumstance suffix; re-evaluates the accounting clauses on the changed child and on o."""
+    gst.touched = True
+    assems = [o] if lev == "assembly" else [a for a in o if len(a) > 0]
+    a = rng.choice(assems)
+    kinds = GEO_KINDS + (["remove-assembly"] if lev == "core" and len(assems) > 2 else [])
+    kind = kind or rng.choice(kinds)
+    if kind == "remove-block" and len(a) < 2:
+        kind = "resize"
+    bi = rng.randrange(len(a))
+    b = a[bi]
+    rec = {"change": kind, "assembly": path_of(a) if lev == "core" else [], "block": bi}
+    changed = None
+    if kind in ("resize", "resize-conserve"):
+        h0 = b.getHeight()
+        f = rng.choice([0.5, 0.8, 1.25, 2.0, rng.uniform(0.3, 3.0)])
+        rec.update(height=[h0, h0 * f])
+        if kind == "resize":
+            b.setHeight(h0 * f)
+        else:
+            m0 = {n: b.getMass(n) for n in sorted(b.getNuclides())}
+            b.setHeight(h0 * f, conserveMass=True, adjustList=sorted(b.getNuclides()))
+            bad = [[n, m, b.getMass(n)] for n, m in m0.items() if not close(m, b.getMass(n), ACC)]
+            check(not bad, "setHeight.conserve-mass.block", "setHeight(conserveMass=True) over all nuclides changed a nuclide's mass in the block", dict(info, geometry=rec, bad=bad[:3]))
+        check(close(b.getHeight(), h0 * f, SET), "setHeight.readback.block", "block height does not read back", dict(info, geometry=rec, got=b.getHeight()))
+        CIRC[0] = ".after-child-resize"
+        changed = b
+    elif kind == "remove-block":
+        a.remove(b)
+        CIRC[0] = ".after-child-removed"
+    elif kind in ("add-block", "insert-block"):
+        newb = copy.deepcopy(b)
+        if kind == "add-block":
+            a.add(newb)
+        else:
+            a.insert(rng.randrange(len(a) + 1), newb)
+        CIRC[0] = ".after-child-added"
+        changed = newb
+    elif kind == "remove-assembly":
+        o.removeAssembly(a, discharge=False)
+        rec["block"] = None
+        CIRC[0] = ".after-child-removed"
+    else:
+        raise KeyError(kind)
+    info.setdefault("geometry", []).append(rec)
+    B.extra["geometry_changes"][kind] = B.extra["geometry_changes"].get(kind, 0) + 1
+    if changed is not None:
+        accounting(src + "+resized", changed, rng, nsample=2)
+    if lev == "core" and kind != "remove-assembly":
+        accounting(src + "+resized", a, rng, nsample=2)
+    accounting(src + "+resized", o, rng, nsample=2, light=lev == "core" and len(assems) > 20)
+    PREFER[:] = partial_nuclides(o)
+
+
+def edit_case(src, root, path, seed, length, ops=None, geometry=None):
+    """One seeded edit sequence on the object at `path` below root, from the loaded state; state restored afterwards.
+    geometry: None = at assembly / core level a child's geometry is changed before an edit with probability 1/4;
+    "scenario" = the staged sequence (a) edit at this level, (b) geometry change of one child, (c) every setter on a nuclide held by
+    only some of the children."""
     o = resolve(root, path)
     lev = level_of(o)
     info = describe(src, o)
     info.update(seed=seed, length=length)
     if ops:
         info["forced_ops"] = list(ops)
-    rng = random.Random("C02:%s:%s:%s" % (src, path, seed))
+    if geometry:
+        info["geometry_mode"] = geometry
+    rng = random.Random("C02:%s:%s:%s:%s" % (src, path, seed, geometry or ""))
     cut = ".cut-block" if lev == "component" and expected_sf(block_of(o)) != 1.0 else ""
-    st = State(o)
+    high = lev in ("assembly", "core")
+    st = GeoState(o) if high else State(o)
     nontrivial = bool(nd_of(o))
-    B.case((src, "edit", tuple(path), seed), sample=info if nontrivial else None, nontrivial=nontrivial)
+    B.case((src, "edit", tuple(path), seed, geometry or ""), sample=info if nontrivial else None, nontrivial=nontrivial)
     B.extra["levels_edited"][lev] = B.extra["levels_edited"].get(lev, 0) + 1
+    big = lev == "core" and len(leaves(o)) >= 200
     try:
         done = []
-        for i in range(length):
-            kind = ops[i] if ops else rng.choice(OPS_ALL)
-            if lev == "core" and kind == "changeNDensByFactor" and not ops:
-                kind = "setNumberDensity"  # the core-level scale has its own dedicated case (see below)
+        if geometry == "scenario" and high:
+            PREFER[:] = partial_nuclides(o)
+            o.getVolumeFractions()
+            o.getNumberDensities()
+            plan = [rng.choice(["setNumberDensity", "updateNumberDensities", "addMass"]), "GEOMETRY"]
+            tail = ["setNumberDensity", "updateNumberDensities", "setMass", "addMass", "setMassFracs"]
+            rng.shuffle(tail)
+            plan += tail[:length] if length < len(tail) else tail
+            if rng.random() < 0.5:
+                plan.insert(rng.randrange(3, len(plan) + 1), "GEOMETRY")
+        else:
+            plan = []
+            for i in range(length):
+                if high and not ops and rng.random() < 0.25:
+                    plan.append("GEOMETRY")
+                kind = ops[i] if ops else rng.choice(OPS_ALL)
+                if lev == "core" and kind == "changeNDensByFactor" and not ops:
+                    kind = "setNumberDensity"  # the core-level scale has its own dedicated case (see below)
+                plan.append(kind)
+        for kind in plan:
             done.append(kind)
             info["ops"] = list(done)
+            if kind == "GEOMETRY":
+                try:
+                    do_geometry(src, o, lev, rng, info, st)
+                except Exception as e:
+                    tb = traceback.extract_tb(e.__traceback__)[-1]
+                    V("geometry.raises." + lev, "a geometry change of a child through the public API raised", dict(info, error=repr(e)[:200], at="%s:%s" % (os.path.basename(tb.filename), tb.lineno)))
+                    break
+                continue
             if not apply_op(src, o, lev, cut, rng, info, kind):
                 break
         # the accounting clauses hold in the edited state too (histories)
-        if lev != "core" or len(leaves(o)) < 200:
-            accounting(src + "+edited", o, rng, nsample=2)
+        if not big or CIRC[0]:
+            accounting(src + "+edited", o, rng, nsample=2, light=big)
             if lev == "component" and block_of(o) is not None:
                 accounting(src + "+edited", block_of(o), rng, nsample=2)
     finally:
+        CIRC[0] = ""
+        PREFER[:] = []
         st.restore()
 
 
@@ -913,7 +1082,7 @@ def main():
                     src = d["source"].split("+")[0]
                     root = root_of(src, d.get("gen"))
                     GEN_CTX[0] = d.get("gen")
-                    edit_case(src, root, d["path"], d["seed"], d["length"], ops=d.get("forced_ops"))
+                    edit_case(src, root, d["path"], d["seed"], d["length"], ops=d.get("forced_ops"), geometry=d.get("geometry_mode"))
                 elif "source" in d:
                     src = d["source"].split("+")[0]
                     root = root_of(src, d.get("gen"))
@@ -1007,6 +1176,33 @@ def edits_on_reactors(rng, maxlen, budget):
                 skip("edit sequences not run within the time budget")
                 continue
             edit_case(src, SOURCES[src], path, rng.randrange(10 ** 6), rng.randint(1, maxlen))
+    # staged sequences: edit above block level, change ONE child's geometry, then every setter on a nuclide only some children hold
+    t1 = time.time()
+    staged = []
+    for src in ("smallest", "default", "edge"):
+        core = SOURCES[src]
+        assems = list(core)
+        withpartial = [i for i, a in enumerate(assems) if len(a) > 1 and partial_nuclides(a)]
+        centre = [i for i in withpartial if expected_sf(assems[i][0]) == 3.0]
+        cut2 = [i for i in withpartial if expected_sf(assems[i][0]) == 2.0]
+        rest = [i for i in withpartial if i not in centre and i not in cut2]
+        if src == "smallest":
+            chosen, nrep, ncore = list(range(len(assems))), (12 if T else 3), (12 if T else 3)
+        elif src == "default":
+            chosen, nrep, ncore = centre + rng.sample(rest, min(len(rest), 16 if T else 4)), (6 if T else 2), (12 if T else 3)
+        else:
+            chosen, nrep, ncore = rng.sample(cut2, min(len(cut2), 4 if T else 1)), (6 if T else 2), (3 if T else 0)
+        for ai in chosen:
+            staged.append((src, [ai], nrep))
+        staged.append((src, [], ncore))
+    B.extra["staged_targets"] = len(staged)
+    for src, path, nseq in staged:
+        for _ in range(nseq):
+            if time.time() - B.t0 > budget + 8.0:
+                skip("staged geometry sequences not run within the time budget")
+                continue
+            edit_case(src, SOURCES[src], path, rng.randrange(10 ** 6), rng.randint(3, maxlen), geometry="scenario")
+    B.extra["t_staged"] = round(time.time() - t1, 1)
     # dedicated single-operation cases at core level (every setter once, incl. the scale)
     for src in ("smallest", "default"):
         for kind in sorted(set(OPS_ALL)):
